@@ -67,7 +67,8 @@ def project(m, workdir=None):
             priv.append(rename(n))
         if "_parameter" in st:
             params.append(rename(n))
-    edges = [[rename(p), rename(c), (d["param"] + 1) if isinstance(d["param"], int) else d["param"]]
+    kw = {"ka": -1, "kb": -2}
+    edges = [[rename(p), rename(c), (d["param"] + 1) if isinstance(d["param"], int) else kw.get(d["param"], -9)]
              for p, c, d in m.source_net.edges(data=True)]
     observed = [[rename(k), v if isinstance(v, int) else -1] for k, v in m.observed.items()]
     try:
@@ -110,6 +111,8 @@ def record(sc):
                         f.opid = e["op"]
                         cls = dict(op=elfi.Operation, sim=elfi.Simulator, sum=elfi.Summary)[e["kind"]]
                         cls(f, *parents, model=m, name=e["x"])
+                elif e["a"] == "addedge":
+                    m.add_edge(e["y"], e["x"], param_name={-1: "ka", -2: "kb"}[e["v"]])
                 elif e["a"] == "become":
                     m[e["x"]].become(m[e["y"]])
                 elif e["a"] == "remove":
@@ -164,7 +167,7 @@ def random_history(rnd, n_acts, fresh_only=True):
         user = [x for x in G["nodes"] if x not in G["priv"]]
         choices = ["add", "add", "add"]
         if len(user) >= 2:
-            choices += ["become", "become"]
+            choices += ["become", "become", "addedge"]
         if user:
             choices += ["remove", "setparams", "setparams"]
         if any(G["nodes"][x] in ("sim", "sum") for x in user):
@@ -200,6 +203,14 @@ def random_history(rnd, n_acts, fresh_only=True):
                 G["priv"].add(p)
             for p in parents:
                 G["edges"].add((p, x))
+        elif a == "addedge":
+            x, p = rnd.sample(user, 2)
+            named_of = G.setdefault("named", {})
+            if G["nodes"][x] == "prior" or (p, x) in G["edges"] or p in desc(h, x) or x in named_of:
+                continue
+            named_of[x] = p
+            G["edges"].add((p, x))
+            acts.append(dict(a="addedge", h=h, x=x, y=p, v=-1))
         elif a == "become":
             x, y = rnd.sample(user, 2)
             if fresh_only:
@@ -225,12 +236,18 @@ def random_history(rnd, n_acts, fresh_only=True):
                     G["nodes"].pop(p)
             G["edges"] = {((p, x) if c == y else (p, c)) for (p, c) in G["edges"]}
             G["nodes"][x] = G["nodes"].pop(y)
+            nm = G.setdefault("named", {})
+            nm.pop(x, None)
+            if y in nm:
+                nm[x] = nm.pop(y)
         elif a == "remove":
             x = rnd.choice(user)
             acts.append(dict(a="remove", h=h, x=x))
             oldp = {p for (p, c) in G["edges"] if c == x}
             G["edges"] = {(p, c) for (p, c) in G["edges"] if c != x and p != x}
             G["nodes"].pop(x)
+            G.setdefault("named", {}).pop(x, None)
+            G["named"] = {c: p for c, p in G["named"].items() if p != x}
             for p in oldp:
                 if p in G["priv"] and not any(p in e for e in G["edges"]):
                     G["priv"].discard(p)
@@ -245,7 +262,7 @@ def random_history(rnd, n_acts, fresh_only=True):
         else:
             h2 = [k for k in handles if k not in g][0]
             acts.append(dict(a=a, h=h, h2=h2))
-            g[h2] = dict(nodes=dict(G["nodes"]), edges=set(G["edges"]), priv=set(G["priv"]))
+            g[h2] = dict(nodes=dict(G["nodes"]), edges=set(G["edges"]), priv=set(G["priv"]), named=dict(G.get("named", {})))
     return acts
 
 
